@@ -321,4 +321,76 @@ theorem C04_both_labels_leak {L : Type} [LabelAlg L] (r : L) (w : WireL L) (h : 
     w.l0 ^^^ w.l1 = r := by
   rw [h]; simp
 
+/-! ### The evaluator's OT request (a deviating evaluator)
+
+The only message by which the evaluator influences what the garbler transmits
+before the result phase is the wire range `(offset, count)` it asks labels for.
+`circuit.Garbler` refuses everything but `(n0, n1)` (`Circuit2.acceptsOtRange`,
+tied to the real code by the `range` sessions of the C04 harness). -/
+
+/-- The evaluator's view when it asks the OT for the wires
+`offset .. offset+count-1` with choice flags of its own. -/
+def evaluatorViewReq {L : Type} [LabelAlg L] (p : Circuit2) (key : List UInt8) (G : Garbled L)
+    (x : List Bool) (offset count : Nat) (flags : List Bool) : List L :=
+  msgLabels (garblerFlight1 p key G x) ++
+    List.zipWith (fun (w : WireL L) b => w.labelFor b)
+      ((List.range count).map fun i => G.wires.get (offset + i))
+      ((List.range count).map fun i => flags.getD i false)
+
+/-- A request the garbler accepts gives the evaluator exactly the honest view
+for the choice bits it used: the secrecy theorems above (`C04_whole_circuit`,
+`C04_no_two_labels_of_a_wire`, quantified over every `y`) cover every
+evaluator whose request passes the guard. -/
+theorem C04_ot_range_guard {L : Type} [LabelAlg L] (p : Circuit2) (key : List UInt8) (G : Garbled L)
+    (x : List Bool) (offset count : Nat) (flags : List Bool)
+    (h : p.acceptsOtRange offset count = true) :
+    evaluatorViewReq p key G x offset count flags = evaluatorView p key G x flags := by
+  simp only [Circuit2.acceptsOtRange, Bool.and_eq_true, beq_iff_eq] at h
+  obtain ⟨ho, hc⟩ := h
+  subst ho; subst hc
+  rfl
+
+/-! Non-vacuity of the guard: the honest request passes, requests with the right end
+but another start do not. -/
+example : ({ c := default, n0 := 2, n1 := 3, outWidths := [] } : Circuit2).acceptsOtRange 2 3 = true := rfl
+example : ({ c := default, n0 := 2, n1 := 3, outWidths := [] } : Circuit2).acceptsOtRange 0 5 = false := rfl
+example : ({ c := default, n0 := 2, n1 := 3, outWidths := [] } : Circuit2).acceptsOtRange 1 4 = false := rfl
+
+/-- Why the guard is needed: if a request reaching into the garbler's own
+input wires were served (offset 0), then for every garbler input bit that is 1
+the evaluator would hold the label sent in the clear and, by choosing 0 in the
+OT, the other label of the same wire: their XOR is the offset. -/
+theorem C04_ot_range_unguarded_leaks {L : Type} [LabelAlg L] (H : Hash L) (p : Circuit2)
+    (hwf : p.WF = true) (key : List UInt8) (r : L) (inl : Nat → L) (x : List Bool)
+    (i : Nat) (hi : i < p.n0) (hx : x.getD i false = true) (count : Nat) (hic : i < count) :
+    let G := p.c.garble H r inl
+    let V := evaluatorViewReq p key G x 0 count []
+    ∃ t ∈ V, ∃ u ∈ V, t ^^^ u = r := by
+  intro G V
+  simp only [Circuit2.WF, Bool.and_eq_true, decide_eq_true_eq] at hwf
+  obtain ⟨⟨⟨hcwf, hnin⟩, _⟩, _⟩ := hwf
+  have hwire : G.wires.get i = ⟨inl i, inl i ^^^ r⟩ :=
+    garble_input_wires H p.c r inl hcwf i (by omega)
+  have hl : ∀ (ls : List L), msgLabels (ls.map Msg.label) = ls := by
+    intro ls; induction ls with
+    | nil => rfl
+    | cons l ls ih => simp [msgLabels, ih]
+  have happ : ∀ (a b : List (Msg L)), msgLabels (a ++ b) = msgLabels a ++ msgLabels b := by
+    intro a b; induction a with
+    | nil => rfl
+    | cons m a ih => cases m <;> simp [msgLabels, ih]
+  refine ⟨inl i ^^^ r, ?_, inl i, ?_, ?_⟩
+  · -- the clear label of garbler wire i (input bit 1)
+    apply List.mem_append_left
+    simp only [garblerFlight1, msgLabels, happ, hl]
+    apply List.mem_append_right
+    simp only [garblerInputLabels, List.mem_map, List.mem_range]
+    exact ⟨i, hi, by rw [hwire, hx]; rfl⟩
+  · -- the label obtained through the OT with choice 0
+    apply List.mem_append_right
+    simp only [List.zipWith_map_left, List.zipWith_map_right, List.zipWith_self, List.mem_map,
+      List.mem_range]
+    exact ⟨i, hic, by simp [hwire, WireL.labelFor]⟩
+  · simp [xor_assoc', xor_comm', xor_left_comm']
+
 end Mpc.Sym
